@@ -12,57 +12,6 @@
 import Echse.Model.Daemon
 namespace Echse.Daemon
 
-/-! ### histories -/
-
-inductive Op where
-  | tick (now : Nat)
-  | req (peer : Nat) (ins : List Instr)
-  | exit (k : Nat)
-  | chk
-deriving Repr
-
-/-- one operation: new state, spawns made, replies given -/
-def step (s : St) : Op → St × List Spawn × List (String × Bool)
-  | .tick now => ((tick s now).1, (tick s now).2, [])
-  | .req p ins => ((cmdIcal s p ins).1, [], (cmdIcal s p ins).2)
-  | .exit k => ((childExit s k).1, [], [])
-  | .chk => (chkpnt s, [], [])
-
-/-- the clock value a spawn of this operation is tagged with -/
-def Op.clock (s : St) : Op → Nat
-  | .tick now => now
-  | _ => s.now
-
-/-- a whole history: final state, the spawns tagged with the clock value of their `tick`,
-all replies -/
-def run (s : St) : List Op → St × List (Nat × Spawn) × List (String × Bool)
-  | [] => (s, [], [])
-  | op :: ops =>
-    let r := step s op
-    let r' := run r.1 ops
-    (r'.1, r.2.1.map (fun sp => (op.clock s, sp)) ++ r'.2.1, r.2.2 ++ r'.2.2)
-
-/-- the final state only -/
-def runSt (s : St) (ops : List Op) : St := (run s ops).1
-
-def instrSorted : Instr → Prop
-  | .sched _ _ _ _ occ _ => occ.Pairwise (· ≤ ·)
-  | .cancel _ => True
-
-/-- what is assumed of one operation in state `s`: the clock does not run backwards, submitted
-occurrence lists are ascending -/
-def OpOk (s : St) : Op → Prop
-  | .tick now => s.now ≤ now
-  | .req _ ins => ∀ i ∈ ins, instrSorted i
-  | _ => True
-
-/-- the assumption on a history started with clock value `c` -/
-def Mono (c : Nat) : List Op → Prop
-  | [] => True
-  | .tick now :: ops => c ≤ now ∧ Mono now ops
-  | .req _ ins :: ops => (∀ i ∈ ins, instrSorted i) ∧ Mono c ops
-  | _ :: ops => Mono c ops
-
 /-! ### small list facts -/
 
 theorem dropWhile_head_not {α} (p : α → Bool) : ∀ (l : List α) (e : α) (r : List α),
@@ -491,6 +440,20 @@ def cbTask (fail : Bool) (t : DTask) : Option DTask :=
 def cbKids (fail : Bool) (t : DTask) : List Child :=
   if runs fail t then [{ sid := t.sid, live := true }] else []
 
+/-- apply `f` to the record named `sid`, if there is one -/
+def onGet {β : Type} (s : St) (sid : Nat) (f : DTask → List β) : List β :=
+  match s.get sid with
+  | some t => f t
+  | none => []
+
+theorem onGet_some {β : Type} {s : St} {sid : Nat} {t : DTask} (f : DTask → List β) (h : s.get sid = some t) :
+    onGet s sid f = f t := by
+  simp only [onGet, h]
+
+theorem onGet_none {β : Type} {s : St} {sid : Nat} (f : DTask → List β) (h : s.get sid = none) :
+    onGet s sid f = [] := by
+  simp only [onGet, h]
+
 /-- the fields no loop iteration touches -/
 structure Frame (s s' : St) : Prop where
   me : s'.me = s.me
@@ -544,13 +507,14 @@ theorem cbTask_sid {fail : Bool} {t y : DTask} (h : cbTask fail t = some y) : y.
 
 theorem cbStep_spec (s : St) (sps : List Spawn) (sid : Nat) (hu : SidU s.tasks) :
     ∃ s', cbStep (s, sps) sid
-        = (s', sps ++ (match s.get sid with | some t => spawnsOf s.spawnFail t | none => []))
+        = (s', sps ++ (onGet s sid (spawnsOf s.spawnFail)))
       ∧ s'.tasks = s.tasks.filterMap (fun x => if x.sid == sid then cbTask s.spawnFail x else some x)
-      ∧ s'.children = s.children ++ (match s.get sid with | some t => cbKids s.spawnFail t | none => [])
+      ∧ s'.children = s.children ++ (onGet s sid (cbKids s.spawnFail))
       ∧ Frame s s' := by
   cases hg : s.get sid with
   | none =>
     have hg' : s.tasks.find? (·.sid == sid) = none := hg
+    rw [onGet_none _ hg, onGet_none _ hg]
     refine ⟨s, by simp [cbStep, hg'], ?_, by simp, Frame.refl s⟩
     rw [get_eq_none_iff] at hg
     conv => lhs; rw [← List.filterMap_some (l := s.tasks)]
@@ -559,6 +523,7 @@ theorem cbStep_spec (s : St) (sps : List Spawn) (sid : Nat) (hu : SidU s.tasks) 
     simp [hg x hx]
   | some t =>
     have hg' : s.tasks.find? (·.sid == sid) = some t := hg
+    rw [onGet_some _ hg, onGet_some _ hg]
     obtain ⟨htm, hts⟩ := get_some_mem hg
     have key : ∀ (f : DTask → Option DTask) (r : Option DTask), f t = r →
         (∀ x, x.sid ≠ sid → f x = some x) →
@@ -581,7 +546,7 @@ theorem cbStep_spec (s : St) (sps : List Spawn) (sid : Nat) (hu : SidU s.tasks) 
       · simp [h, h2 x h]
     by_cases hit : t.inTable = false
     · refine ⟨s, ?_, ?_, ?_, Frame.refl s⟩
-      · simp [cbStep, hg', hit, hit, spawnsOf]
+      · simp [cbStep, hg', hit, spawnsOf]
       · conv => lhs; rw [← List.filterMap_some (l := s.tasks)]
         apply keyc
         · intro x hx h
@@ -709,10 +674,10 @@ theorem get_congr_of_tasks {s s1 : St} {sid x : Nat} (hx : x ≠ sid)
 /-- all callbacks of one iteration -/
 theorem cbFold_spec : ∀ (pend : List Nat) (s : St) (sps : List Spawn), SidU s.tasks → pend.Nodup →
     ∃ s', pend.foldl cbStep (s, sps)
-        = (s', sps ++ pend.flatMap (fun sid => match s.get sid with | some t => spawnsOf s.spawnFail t | none => []))
+        = (s', sps ++ pend.flatMap (fun sid => onGet s sid (spawnsOf s.spawnFail)))
       ∧ s'.tasks = s.tasks.filterMap (fun x => if pend.contains x.sid then cbTask s.spawnFail x else some x)
       ∧ s'.children = s.children
-          ++ pend.flatMap (fun sid => match s.get sid with | some t => cbKids s.spawnFail t | none => [])
+          ++ pend.flatMap (fun sid => onGet s sid (cbKids s.spawnFail))
       ∧ Frame s s' := by
   intro pend
   induction pend with
@@ -730,16 +695,16 @@ theorem cbFold_spec : ∀ (pend : List Nat) (s : St) (sps : List Spawn), SidU s.
       split at h
       · exact cbTask_sid h
       · cases h; rfl
-    obtain ⟨s2, h2, ht2, hc2, hf2⟩ := ih s1 (sps ++ (match s.get sid with | some t => spawnsOf s.spawnFail t | none => [])) hu1 hnd.2
+    obtain ⟨s2, h2, ht2, hc2, hf2⟩ := ih s1 (sps ++ (onGet s sid (spawnsOf s.spawnFail))) hu1 hnd.2
     have hget : ∀ x ∈ rest, s1.get x = s.get x := by
       intro x hx
       exact get_congr_of_tasks (fun e => hnd.1 (by rw [← e]; exact hx)) ht1
     refine ⟨s2, ?_, ?_, ?_, hf1.trans hf2⟩
     · rw [List.foldl_cons, h1, h2, List.flatMap_cons, List.append_assoc]
-      have : ∀ x ∈ rest, (match s1.get x with | some t => spawnsOf s1.spawnFail t | none => [])
-          = (match s.get x with | some t => spawnsOf s.spawnFail t | none => []) := by
+      have : ∀ x ∈ rest, (onGet s1 x (spawnsOf s1.spawnFail))
+          = (onGet s x (spawnsOf s.spawnFail)) := by
         intro x hx
-        rw [hget x hx, hf1.spawnFail]
+        simp only [onGet, hget x hx, hf1.spawnFail]
       rw [flatMap_congr' this]
     · rw [ht2, ht1, List.filterMap_filterMap, hf1.spawnFail]
       apply filterMap_congr'
@@ -756,10 +721,10 @@ theorem cbFold_spec : ∀ (pend : List Nat) (s : St) (sps : List Spawn), SidU s.
       · have h' : (x.sid == sid) = false := by simpa using h
         simp only [h', Bool.false_eq_true, if_false, Option.bind_some, List.contains_cons, Bool.false_or]
     · rw [hc2, hc1, List.flatMap_cons, List.append_assoc]
-      have : ∀ x ∈ rest, (match s1.get x with | some t => cbKids s1.spawnFail t | none => [])
-          = (match s.get x with | some t => cbKids s.spawnFail t | none => []) := by
+      have : ∀ x ∈ rest, (onGet s1 x (cbKids s1.spawnFail))
+          = (onGet s x (cbKids s.spawnFail)) := by
         intro x hx
-        rw [hget x hx, hf1.spawnFail]
+        simp only [onGet, hget x hx, hf1.spawnFail]
       rw [flatMap_congr' this]
 
 
@@ -871,7 +836,7 @@ theorem exit_spec (s : St) (k : Nat) (pend : List Nat) (hu : SidU s.tasks) (c : 
         · simp only [unsched]
           rw [del_tasks_filterMap, addChkpnt_tasks, upd_tasks_filterMap, List.filterMap_filterMap]
           apply keyc
-          · simp [exitTask, hts, hit', hz']
+          · simp [exitTask, hts, hit']; simpa [hts, and_assoc] using hz'
           · intro x h; simp [hts, h]
         · simp [unsched, St.del, addChkpnt_children, St.upd]
       · rename_i hz
@@ -880,7 +845,261 @@ theorem exit_spec (s : St) (k : Nat) (pend : List Nat) (hu : SidU s.tasks) (c : 
         simp only []
         rw [upd_tasks_filterMap]
         apply keyc
-        · simp [exitTask, hts, hit', hz']
+        · simp [exitTask, hts, hit']; simpa [hts] using hz'
         · intro x h; simp [hts, h]
+
+/-! ### one iteration in closed form -/
+
+/-- one loop iteration at time `now`; with `ko = some k` the `k`-th child is reaped in the same iteration
+(after `periodics_reify`, before the pending periodic callbacks run) -/
+def iter (s : St) (now : Nat) (ko : Option Nat) : St × List Spawn :=
+  let r := reify now (s.tasks.length + 1) { s with now := now } []
+  runPending (match ko with | some k => (childExitPending r.1 k r.2).1 | none => r.1) r.2
+
+theorem tick_eq_iter (s : St) (now : Nat) : tick s now = iter s now none := rfl
+
+/-- the combined iteration as an operation of its own -/
+def tickExit (s : St) (now k : Nat) : St × List Spawn := iter s now (some k)
+
+/-- the `sid` of the child reaped in the iteration, if any -/
+def exitSid (s : St) : Option Nat → Option Nat
+  | none => none
+  | some k => match s.children[k]? with
+    | some c => if c.live then some c.sid else none
+    | none => none
+
+def exitO (ex : Option Nat) (p : Bool) (x : DTask) : Option DTask :=
+  match ex with
+  | some e => exitTask e p x
+  | none => some x
+
+theorem exitO_sid {ex : Option Nat} {p : Bool} {x y : DTask} (h : exitO ex p x = some y) : y.sid = x.sid := by
+  cases ex with
+  | none => cases h; rfl
+  | some e => exact exitTask_sid h
+
+/-- what one iteration does to a task record; `none`: it leaves the table -/
+def iterTask (now : Nat) (fail : Bool) (ex : Option Nat) (t : DTask) : Option DTask :=
+  if isDue now t then (exitO ex true (rearm now t)).bind (cbTask fail) else exitO ex false t
+
+/-- the spawns one iteration makes for a record -/
+def iterSpawns (now : Nat) (fail : Bool) (ex : Option Nat) (t : DTask) : List Spawn :=
+  if isDue now t then
+    (match exitO ex true (rearm now t) with | some t2 => spawnsOf fail t2 | none => [])
+  else []
+
+theorem get_filterMap {l : List DTask} (g : DTask → Option DTask) (hu : SidU l)
+    (hg : ∀ x y, g x = some y → y.sid = x.sid) (sid : Nat) :
+    (l.filterMap g).find? (·.sid == sid) = (l.find? (·.sid == sid)).bind g := by
+  induction l with
+  | nil => rfl
+  | cons a l ih =>
+    unfold SidU at hu
+    rw [List.map_cons, List.nodup_cons] at hu
+    rw [List.filterMap_cons, List.find?_cons]
+    by_cases h : a.sid = sid
+    · have hb : (a.sid == sid) = true := by simpa using h
+      simp only [hb, Option.bind_some]
+      cases hga : g a with
+      | none =>
+        simp only []
+        rw [List.find?_eq_none]
+        intro y hy
+        rw [List.mem_filterMap] at hy
+        obtain ⟨x, hx, hgx⟩ := hy
+        have := hg x y hgx
+        intro hys
+        apply hu.1
+        rw [List.mem_map]
+        refine ⟨x, hx, ?_⟩
+        have : y.sid = sid := by simpa using hys
+        omega
+      | some y =>
+        simp only []
+        rw [List.find?_cons]
+        have : (y.sid == sid) = true := by rw [hg a y hga]; exact hb
+        simp [this]
+    · have hb : (a.sid == sid) = false := by simpa using h
+      simp only [hb]
+      cases hga : g a with
+      | none => simp only []; exact ih hu.2
+      | some y =>
+        simp only []
+        rw [List.find?_cons]
+        have : (y.sid == sid) = false := by rw [hg a y hga]; exact hb
+        simp only [this]; exact ih hu.2
+
+theorem iter_spec (s : St) (now : Nat) (ko : Option Nat) (hu : SidU s.tasks) :
+    ∃ L : List Nat, L.Nodup ∧ (∀ x, x ∈ L ↔ ∃ t ∈ s.tasks, isDue now t = true ∧ t.sid = x)
+      ∧ (iter s now ko).2 = L.flatMap (fun sid =>
+          onGet s sid (iterSpawns now s.spawnFail (exitSid s ko)))
+      ∧ (iter s now ko).1.tasks = s.tasks.filterMap (iterTask now s.spawnFail (exitSid s ko))
+      ∧ Frame { s with now := now } (iter s now ko).1 := by
+  have hu0 : SidU ({ s with now := now } : St).tasks := hu
+  obtain ⟨L, hr, hnd, hmem⟩ := reify_spec now (s.tasks.length + 1) { s with now := now } [] hu0
+    (by intro t _ h; cases h)
+    (by have := List.length_filter_le (isDue now) s.tasks; simp only []; omega)
+  unfold iter
+  rw [hr]
+  simp only [List.nil_append]
+  have hu1 : SidU (s.tasks.map (fun t => if isDue now t then rearm now t else t)) := by
+    unfold SidU at hu ⊢
+    rw [List.map_map]
+    have : ((fun x : DTask => x.sid) ∘ fun t => if isDue now t then rearm now t else t)
+        = fun x : DTask => x.sid := by
+      funext x
+      simp only [Function.comp]
+      split <;> simp [rearm_sid]
+    rw [this]; exact hu
+  generalize hs1 : ({ s with now := now, tasks := s.tasks.map (fun t => if isDue now t then rearm now t else t) } : St) = s1
+  have hs1t : s1.tasks = s.tasks.map (fun t => if isDue now t then rearm now t else t) := by rw [← hs1]
+  have hs1c : s1.children = s.children := by rw [← hs1]
+  have hs1f : s1.spawnFail = s.spawnFail := by rw [← hs1]
+  have hfr1 : Frame { s with now := now } s1 := by rw [← hs1]; exact ⟨rfl, rfl, rfl, rfl, rfl, rfl, rfl⟩
+  rw [← hs1t] at hu1
+  -- the reaping step
+  obtain ⟨s2, hs2, hs2t, hfr2⟩ : ∃ s2, (match ko with | some k => (childExitPending s1 k L).1 | none => s1) = s2
+      ∧ s2.tasks = s1.tasks.filterMap (fun x => exitO (exitSid s ko) (L.contains x.sid) x) ∧ Frame s1 s2 := by
+    refine ⟨_, rfl, ?_⟩
+    cases ko with
+    | none =>
+      refine ⟨?_, Frame.refl _⟩
+      simp only [exitSid, exitO]
+      exact (List.filterMap_some).symm
+    | some k =>
+      simp only [exitSid]
+      cases hc : s.children[k]? with
+      | none =>
+        have := exit_none s1 k L (by intro c h; rw [hs1c, hc] at h; cases h)
+        rw [this]
+        simp only [exitO]
+        exact ⟨(List.filterMap_some).symm, Frame.refl _⟩
+      | some c =>
+        by_cases hl : c.live = true
+        · obtain ⟨h1, _, h3⟩ := exit_spec s1 k L hu1 c (by rw [hs1c]; exact hc) hl
+          simp only [hl, if_true, exitO]
+          exact ⟨h1, h3⟩
+        · have hl' : c.live = false := by simpa using hl
+          have := exit_none s1 k L (by intro c' h; rw [hs1c, hc] at h; cases h; exact hl')
+          rw [this]
+          simp only [hl', Bool.false_eq_true, if_false, exitO]
+          exact ⟨(List.filterMap_some).symm, Frame.refl _⟩
+  rw [hs2]
+  have hu2 : SidU s2.tasks := by
+    rw [hs2t]
+    exact sidU_filterMap _ (fun x y h => exitO_sid h) hu1
+  rw [runPending_eq]
+  obtain ⟨s', h2, ht2, _, hf2⟩ := cbFold_spec L s2 [] hu2 hnd
+  rw [h2]
+  have hsf : s2.spawnFail = s.spawnFail := hfr2.spawnFail.trans hs1f
+  -- look-up after re-arming and reaping
+  have hget : ∀ x ∈ L, ∃ t, s.get x = some t ∧ isDue now t = true ∧
+      s2.get x = exitO (exitSid s ko) true (rearm now t) := by
+    intro x hx
+    obtain ⟨t, ht, hd, hs⟩ := (hmem x).mp hx
+    refine ⟨t, hs ▸ get_of_mem hu ht, hd, ?_⟩
+    have h1 : s1.get x = some (rearm now t) := by
+      rw [get_eq_some_iff hu1]
+      refine ⟨?_, by rw [rearm_sid]; exact hs⟩
+      rw [hs1t, List.mem_map]
+      exact ⟨t, ht, by simp [hd]⟩
+    unfold St.get at h1 ⊢
+    rw [hs2t, get_filterMap _ hu1 (fun x y h => exitO_sid h), h1]
+    simp only [Option.bind_some, rearm_sid, hs]
+    have : L.contains x = true := by simpa using hx
+    rw [this]
+  refine ⟨L, hnd, hmem, ?_, ?_, hfr1.trans (hfr2.trans hf2)⟩
+  · simp only [List.nil_append]
+    apply flatMap_congr'
+    intro x hx
+    obtain ⟨t, h1, hd, h3⟩ := hget x hx
+    rw [onGet_some _ h1]
+    simp only [onGet, h3, hsf, iterSpawns, hd, if_true]
+  · simp only []
+    rw [ht2, hs2t, hs1t, List.filterMap_map, List.filterMap_filterMap, hsf]
+    apply filterMap_congr'
+    intro x hx
+    simp only [Function.comp, iterTask]
+    by_cases hd : isDue now x = true
+    · have hxl : L.contains x.sid = true := by
+        simpa using (hmem _).mpr ⟨x, hx, hd, rfl⟩
+      simp only [hd, if_true, rearm_sid, hxl]
+      cases he : exitO (exitSid s ko) true (rearm now x) with
+      | none => rfl
+      | some y =>
+        have := exitO_sid he
+        rw [rearm_sid] at this
+        simp only [Option.bind_some, this, hxl, if_true]
+    · have hd' : isDue now x = false := by simpa using hd
+      have hxl : L.contains x.sid = false := by
+        have : x.sid ∉ L := by
+          intro hm
+          obtain ⟨t, ht, hdt, hs⟩ := (hmem _).mp hm
+          rw [hu.inj ht hx hs] at hdt
+          rw [hdt] at hd'; cases hd'
+        simpa using this
+      simp only [hd', Bool.false_eq_true, if_false, hxl]
+      cases he : exitO (exitSid s ko) false x with
+      | none => rfl
+      | some y =>
+        have := exitO_sid he
+        simp only [Option.bind_some, this, hxl, Bool.false_eq_true, if_false]
+
+/-! ### histories -/
+
+inductive Op where
+  | tick (now : Nat)
+  | req (peer : Nat) (ins : List Instr)
+  | exit (k : Nat)
+  | chk
+  /-- the combined iteration: the `k`-th child is reaped while periodic callbacks are pending -/
+  | tickExit (now : Nat) (k : Nat)
+deriving Repr
+
+/-- one operation: new state, spawns made, replies given -/
+def step (s : St) : Op → St × List Spawn × List (String × Bool)
+  | .tick now => ((tick s now).1, (tick s now).2, [])
+  | .req p ins => ((cmdIcal s p ins).1, [], (cmdIcal s p ins).2)
+  | .exit k => ((childExit s k).1, [], [])
+  | .chk => (chkpnt s, [], [])
+  | .tickExit now k => ((tickExit s now k).1, (tickExit s now k).2, [])
+
+/-- the clock value a spawn of this operation is tagged with -/
+def Op.clock (s : St) : Op → Nat
+  | .tick now => now
+  | .tickExit now _ => now
+  | _ => s.now
+
+/-- a whole history: final state, the spawns tagged with the clock value of their `tick`,
+all replies -/
+def run (s : St) : List Op → St × List (Nat × Spawn) × List (String × Bool)
+  | [] => (s, [], [])
+  | op :: ops =>
+    let r := step s op
+    let r' := run r.1 ops
+    (r'.1, r.2.1.map (fun sp => (op.clock s, sp)) ++ r'.2.1, r.2.2 ++ r'.2.2)
+
+/-- the final state only -/
+def runSt (s : St) (ops : List Op) : St := (run s ops).1
+
+def instrSorted : Instr → Prop
+  | .sched _ _ _ _ occ _ => occ.Pairwise (· ≤ ·)
+  | .cancel _ => True
+
+/-- what is assumed of one operation in state `s`: the clock does not run backwards, submitted
+occurrence lists are ascending -/
+def OpOk (s : St) : Op → Prop
+  | .tick now => s.now ≤ now
+  | .tickExit now _ => s.now ≤ now
+  | .req _ ins => ∀ i ∈ ins, instrSorted i
+  | _ => True
+
+/-- the assumption on a history started with clock value `c` -/
+def Mono (c : Nat) : List Op → Prop
+  | [] => True
+  | .tick now :: ops => c ≤ now ∧ Mono now ops
+  | .tickExit now _ :: ops => c ≤ now ∧ Mono now ops
+  | .req _ ins :: ops => (∀ i ∈ ins, instrSorted i) ∧ Mono c ops
+  | _ :: ops => Mono c ops
 
 end Echse.Daemon
